@@ -81,6 +81,44 @@ Fixpoint replace_sub_fuel (fuel:nat) (p t s : str) : str :=
 Definition replace_sub (p t s : str) : str :=
   match p with [] => s | _ => replace_sub_fuel (S (List.length s)) p t s end.
 
+(* str::split_inclusive('\n'): every piece ends with the LF that terminates it, except possibly the last
+   one; the empty string has no piece, and there is no empty piece after a final LF.
+   [cur]: the characters of the current piece read so far, reversed. *)
+Fixpoint split_inclusive_nl_from (cur : str) (s : str) : list str :=
+  match s with
+  | [] => match cur with [] => [] | _ => [rev cur] end
+  | c :: r => if c =? ch_nl then rev (c :: cur) :: split_inclusive_nl_from [] r
+              else split_inclusive_nl_from (c :: cur) r
+  end.
+Definition split_inclusive_nl (s : str) : list str := split_inclusive_nl_from [] s.
+
+(* str::strip_suffix(c : char) *)
+Definition strip_suffix_char (c : char) (s : str) : option str :=
+  match rev s with
+  | x :: r => if x =? c then Some (rev r) else None
+  | [] => None
+  end.
+
+(* core::str LinesMap: `let Some(line) = line.strip_suffix('\n') else { return line };
+                        let Some(line) = line.strip_suffix('\r') else { return line }; line`
+   - a CR is removed only in front of the LF that ended the piece *)
+Definition lines_map (line : str) : str :=
+  match strip_suffix_char ch_nl line with
+  | None => line
+  | Some l => match strip_suffix_char ch_cr l with None => l | Some l' => l' end
+  end.
+
+(* str::lines() = split_inclusive('\n').map(LinesMap) *)
+Definition str_lines (s : str) : list str := map lines_map (split_inclusive_nl s).
+
+(* str::split(c : char): always at least one piece; [cur] as above *)
+Fixpoint split_char_from (c : char) (cur : str) (s : str) : list str :=
+  match s with
+  | [] => [rev cur]
+  | x :: r => if x =? c then rev cur :: split_char_from c [] r else split_char_from c (x :: cur) r
+  end.
+Definition split_char (c : char) (s : str) : list str := split_char_from c [] s.
+
 (* hex digits for \u{..} *)
 Definition hex_digit (d:N) : char := if d <? 10 then 48 + d else 87 + d.
 Fixpoint hex_fuel (fuel:nat) (n:N) (acc:str) : str :=
